@@ -236,8 +236,10 @@ class Atoms():
         direction = v1[0] * v2[1] * v3[2] - v1[2] * v2[1] * v3[0] + v1[2] * v2[0] * v3[1] - v1[0] \
                     * v2[2] * v3[1] + v1[1] * v2[2] * v3[0] - v1[1] * v2[0] * v3[2]
         # angle between plane normals:
-        ang = acos((a[0] * b[0] + a[1] * b[1] + a[2] * b[2]) / (
-                sqrt(a[0] * a[0] + a[1] * a[1] + a[2] * a[2]) * sqrt(b[0] * b[0] + b[1] * b[1] + b[2] * b[2])))
+        cosine = (a[0] * b[0] + a[1] * b[1] + a[2] * b[2]) / (
+                sqrt(a[0] * a[0] + a[1] * a[1] + a[2] * a[2]) * sqrt(b[0] * b[0] + b[1] * b[1] + b[2] * b[2]))
+        # Rounding can carry the cosine of a planar arrangement slightly outside of [-1, 1]:
+        ang = acos(max(-1.0, min(1.0, cosine)))
         return degrees(ang) if direction > 0 else degrees(-ang)
 
     def atoms_in_class(self, name: str) -> list:
